@@ -107,8 +107,11 @@ def run(ctx):
             h2[l, k, j, i] += numpy.conj(z)
         guess_data = None
         key = (na + nb, na - nb)
-        api = "davidsonliu_fqe" if big else rng.choice(["davidson_diagonalization", "davidsonliu_fqe"])
-        nroots = rng.choice([1, 2]) if api == "davidsonliu_fqe" else 1
+        # the high-level entry point builds its own guess vectors: closed-shell sectors (nalpha = nbeta) with several
+        # roots are the case in which a too symmetric guess set cannot reach the odd-spin states
+        api = rng.choice(["davidsonliu_fqe", "davidsonliu_fqe", "davidson_diagonalization"]) if big else \
+            rng.choice(["davidson_diagonalization", "davidsonliu_fqe"])
+        nroots = rng.choice([1, 2]) if api == "davidsonliu_fqe" else (rng.choice([2, 3]) if big else 1)
         cplx_g = api == "davidsonliu_fqe" and rng.random() < 0.5
         if api == "davidsonliu_fqe":
             shp = fqe.Wavefunction([[na + nb, na - nb, norb]]).get_coeff(key).shape
@@ -163,7 +166,7 @@ def fqe_case(ctx, case, norb, na, nb, h1, h2, api, nroots, guess_data, cplx_h, c
             "h1": enc(h1), "h2": enc(h2), "guesses": [enc(g) for g in guess_data] if guess_data is not None else None}
     try:
         if api == "davidson_diagonalization":
-            ew, ev = davidson.davidson_diagonalization(ham, na, nb, nroots=1)
+            ew, ev = davidson.davidson_diagonalization(ham, na, nb, nroots=nroots)
         else:
             guesses = []
             for c in guess_data:
